@@ -19,7 +19,7 @@ var kinds = []string{
 	"ns-cycle", "ns-chain", "fanout", "fanout2",
 	"deep-infinite", "deep-chain", "lame", "self-referral",
 	"huge-ns", "huge-ds", "huge-dnskey", "huge-rrsig",
-	"keycrowd", "nsec3-iter",
+	"keycrowd", "nsec3-iter", "nsec3-deep",
 }
 
 // QuerySpec is one client question.
@@ -194,15 +194,24 @@ func genTopo(rng *rand.Rand, index int) *TopoSpec {
 	case "nsec3-iter":
 		t.Signed = true
 		t.NSEC3 = true
-		t.Iter = pick(rng, uint16(0), 1, 50, 150, 150, 151, 151, 200, 500, 2500)
+		t.Iter = pick(rng, uint16(0), 1, 10, 50, 150, 150, 151, 151, 500, 2500)
 		t.Resolvable = t.Iter <= 150
 		q.Name = "nx.n3." + tld
-		if rng.IntN(3) == 0 {
+		if rng.IntN(4) == 0 {
 			q.Name = "www.n3." + tld
 			q.Type = dns.TypeAAAA // NODATA
 		}
+	case "nsec3-deep":
+		// a name many labels below the closest encloser: the closest-encloser
+		// walk hashes every ancestor, each at Iter iterations
+		t.Signed = true
+		t.NSEC3 = true
+		t.Iter = pick(rng, uint16(0), 5, 50, 150)
+		t.Len = 2 + rng.IntN(44)
+		t.Resolvable = true
+		q.Name = strings.Repeat("a.", t.Len) + "nx.n3." + tld
 	}
-	if t.Kind != "nsec3-iter" && t.Signed && rng.IntN(4) == 0 {
+	if t.Kind != "nsec3-iter" && t.Kind != "nsec3-deep" && t.Signed && rng.IntN(4) == 0 {
 		t.NSEC3 = true
 		t.Iter = pick(rng, uint16(0), 0, 5, 20)
 	}
@@ -761,7 +770,7 @@ func buildWorld(t *TopoSpec) *world {
 		z.SetKeys(keys)
 		w.u.Delegate(w.tld, z, authsim.DelegOpts{})
 
-	case "nsec3-iter":
+	case "nsec3-iter", "nsec3-deep":
 		apex := "n3." + tldName
 		s := u.AddServer("n3")
 		z := w.addZone(apex, s)
